@@ -56,7 +56,7 @@ Definition solves (Ay : mat * vec) (x : vec) : Prop :=
 Lemma matvec_length A x : length (matvec A x) = length A.
 Proof. apply map_length. Qed.
 
-Theorem resid_ok_exact A x y : resid_ok 0 A x y = true <-> solves (A, y) x.
+Theorem resid_ok_exact sc A x y : resid_ok 0 sc A x y = true <-> solves (A, y) x.
 Proof.
   unfold resid_ok, solves. cbn [fst snd]. rewrite !andb_true_iff, !Nat.eqb_eq, Qle_bool_iff.
   split.
@@ -88,7 +88,7 @@ Definition row_spec (sys : srow -> mat * vec) (old : vec) (row : srow) (new : ve
 Definition halfstep_spec (sys : srow -> mat * vec) (left : mat) (rows : list srow) (left' : mat) : Prop :=
   Forall3 (row_spec sys) left rows left'.
 
-Lemma row_ok_exact sys old row new : row_ok 0 sys old row new = true <-> row_spec sys old row new.
+Lemma row_ok_exact sys sc old row new : row_ok 0 sys sc old row new = true <-> row_spec sys old row new.
 Proof.
   unfold row_ok, row_spec. destruct row as [|cv row]; [apply veqb_iff|].
   rewrite resid_ok_exact. destruct (sys (cv :: row)); reflexivity.
@@ -105,8 +105,8 @@ Proof.
 Qed.
 
 (* the checker is sound and complete for the specification *)
-Theorem halfstep_ok_exact sys left rows left' :
-  halfstep_ok 0 sys left rows left' = true <-> halfstep_spec sys left rows left'.
+Theorem halfstep_ok_exact sys sc left rows left' :
+  halfstep_ok 0 sys sc left rows left' = true <-> halfstep_spec sys left rows left'.
 Proof. apply all3_iff. intros. apply row_ok_exact. Qed.
 
 Lemma Forall3_nth {A B C} (R : A -> B -> C -> Prop) la lb lc : Forall3 R la lb lc ->
@@ -171,14 +171,14 @@ Proof.
   - apply IH; [lia|]. intros row Hin. apply S. right. exact Hin.
 Qed.
 
-Corollary halfstep_passes_checker sys left rows : length left = length rows ->
-  solver_exact_on sys rows -> halfstep_ok 0 sys left rows (halfstep solve sys left rows) = true.
+Corollary halfstep_passes_checker sys sc left rows : length left = length rows ->
+  solver_exact_on sys rows -> halfstep_ok 0 sys sc left rows (halfstep solve sys left rows) = true.
 Proof. intros L S. apply halfstep_ok_exact, halfstep_inhabits_spec; assumption. Qed.
 End Solver.
 
 (* rows without data keep their values in anything the checker accepts, at every tolerance *)
-Theorem empty_rows_kept_checked tol sys : forall left rows left' i old new,
-  halfstep_ok tol sys left rows left' = true ->
+Theorem empty_rows_kept_checked tol sys sc : forall left rows left' i old new,
+  halfstep_ok tol sys sc left rows left' = true ->
   nth_error rows i = Some [] -> nth_error left i = Some old -> nth_error left' i = Some new -> veq new old.
 Proof.
   unfold halfstep_ok. induction left as [|o left IH]; intros [|r rows] [|n left'] [|i] old new H Hr Hl Hn;
